@@ -303,7 +303,73 @@ def run_volume(case):
     return res
 
 
-KINDS = {"ess": run_ess, "trim": run_trim, "long": run_long, "volume": run_volume}
+def run_session20(case):
+    """posterior(trim) on one sampler object across save / load / iterate sequences: the trimming contract w.r.t. the CURRENT weights."""
+    from mc import session
+    return session.run_case(case, lambda: [], key_pred=lambda k: k.startswith("session:trim"))
+
+
+def run_callsites(case):
+    """Every call of trim_weights made by the library during real runs (Trainer, posterior) must satisfy the trimming contract
+    for the arguments it was given (whatever extra options a call site passes)."""
+    import tempest.tools as tt
+    import tempest.steps.train as tr
+    from mc.pipeline import Probe
+    from mc.tape import OwnedRandom
+
+    res = Res()
+    orig = tt.trim_weights
+    calls = []
+
+    def spy(samples, weights, *a, **k):
+        w_in = np.array(weights, dtype=float, copy=True)
+        out = orig(samples, weights, *a, **k)
+        essf = k.get("ess", a[0] if a else 0.99)
+        calls.append((w_in, np.array(out[0], copy=True), np.array(out[1], copy=True), float(essf), np.array(samples, copy=True)))
+        return out
+
+    tt.trim_weights = spy
+    old_tr = tr.trim_weights
+    tr.trim_weights = spy
+    try:
+        p = Probe(case["cfg"], base=case["base"])
+        p.run()
+        if p.completed:
+            with OwnedRandom(3):
+                p.sampler.posterior()
+                p.sampler.posterior(ess_trim=0.9, bins_trim=10)
+    finally:
+        tt.trim_weights = orig
+        tr.trim_weights = old_tr
+    res.evals += 1
+    res.traces += 1
+    if p.exc is not None:
+        res.bump("aborted_runs")
+    for k, (w_in, s_out, w_out, essf, s_in) in enumerate(calls):
+        res.states += 1
+        res.trans += 1
+        cc = dict(case, call=k)
+        wn = w_in / w_in.sum()
+        if s_in.ndim != 1 or not np.array_equal(s_in, np.arange(len(s_in))):
+            continue  # contract is checked through identity samples (what both call sites pass)
+        kept = np.asarray(s_out).astype(int)
+        want = wn[kept] / wn[kept].sum()
+        tag = f"trim_weights call #{k} of a real run (n={len(w_in)}, ess={essf}, cfg={case['cfg']})"
+        if len(kept) != len(w_out) or np.max(np.abs(want - w_out)) > 1e-12:
+            res.violate("callsite:alignment", f"{tag}: returned weights are not the renormalised input weights of the returned samples", cc)
+            continue
+        dropped = np.setdiff1d(np.arange(len(wn)), kept)
+        if len(dropped) and wn[dropped].max() >= wn[kept].min():
+            res.violate("callsite:upper-set", f"{tag}: kept set is not a threshold set of the weights it was given", cc)
+        e_all, e_kept = 1.0 / np.sum(wn ** 2), 1.0 / np.sum(want ** 2)
+        if e_kept / e_all < essf - 1e-12:
+            res.violate("callsite:ess-fraction", f"{tag}: ESS(kept)/ESS(all) = {e_kept / e_all!r} < {essf}", cc)
+        res.outcome(("callsite", len(w_in), len(kept), essf), nontrivial=len(kept) < len(w_in))
+    res.sample({"cfg": case["cfg"], "trim_calls_observed": len(calls)}, cap=1)
+    return res
+
+
+KINDS = {"session": run_session20, "callsites": run_callsites, "ess": run_ess, "trim": run_trim, "long": run_long, "volume": run_volume}
 
 
 def plan(ctx):
@@ -331,5 +397,10 @@ def plan(ctx):
     ctx.explore("trim-contract", tr)
     vol = [{"kind": "volume", "d": d, "n": n} for d in (1, 2, 3, 5) for n in (d + 2, 10, 50) + ((400,) if th else ())]
     ctx.explore("volume-metric", vol)
+    scfg = dict(n_particles=8, d=1, ess_ratio=1.0, n_total=10 ** 6, eval="scalar", clustering=False)
+    ses = [{"kind": "session", "cfg": scfg, "base": ctx.seed, "depth": 9, "patterns": [sh, 4]} for sh in range(4)]
+    ses += [{"kind": "callsites", "cfg": dict(clustering=cl, cluster_every=ce, sample=k, target=t, n_particles=24, n_total=96), "base": ctx.seed}
+            for cl, ce in ((False, 1), (True, 1), (True, 2), (True, 3)) for k in ("tpcn", "rwm") for t in ("gauss", "bimodal")]
+    ctx.explore("pipeline-call-sites-and-sessions", ses)
     ctx.bounds.update({"alphabet": ALPHA, "max_len": 5, "scales": SCALES, "trim_ess": [0.5, 0.9, 0.99, 0.999], "trim_bins": [2, 10, 1000], "volume_dims": [1, 2, 3, 5], "conditions": [1, 10, 1e3, 1e6]})
     ctx.res.sample({"weights": [1e-300, 3.0, 1e8], "check": "ESS bounds/value/scale/permutation; trim upper-set/alignment/ESS fraction"})
